@@ -279,7 +279,13 @@ func decodeStructValueSlice(field reflect.Value, fieldType reflect.StructField, 
 
 	value = strings.Trim(value, strip)
 
-	for _, el := range strings.Split(value, delim) {
+	els := strings.Split(value, delim)
+	if delim == " " {
+		/* A blank separated list may be folded over several lines */
+		els = strings.Fields(value)
+	}
+
+	for _, el := range els {
 		el = strings.Trim(el, strip)
 
 		targetValue := reflect.New(underlyingType)
